@@ -32,5 +32,6 @@ Definition run_case (comp : N) (inp : list N) : list N :=
   | 13 => run_lease inp
   | 1301 => run_validate_timing inp
   | 1302 => [min_check_interval]
+  | 1303 => run_lease_floor inp
   | _ => []
   end.
